@@ -105,6 +105,11 @@ def build_models(repo):
         # template: listed by children (or stored from a Container-valued parameter) but never filled
         ref = REFERENCE.get(c.name)
         order = list(m.init_fields)
+        m.template_filled = False
+        if ref and ref["template"] and ref["template"] in slots:
+            # the confirmed template has become a receiver of fill: that is the R6.4 violation itself, not a vanished anchor
+            slots = [s for s in slots if s != ref["template"]]
+            m.template_filled = True
         m.slots = [s for s in order if s in slots] + [s for s in slots if s not in order]
         for a in order:
             if a in m.slots or a in USERFCN_FIELDS:
@@ -115,7 +120,7 @@ def build_models(repo):
                 m.acc.append(a)
                 if any(is_float_nan_call(e) for e in rhs):
                     m.nan_fields.append(a)
-            elif a in listed and a not in slots:
+            elif (a in listed and a not in slots) or (m.template_filled and ref and a == ref["template"]):
                 m.template = a
             else:
                 m.structural.append(a)
